@@ -660,6 +660,9 @@ func c14Escapes(w *bufio.Writer, r *hx.Rng, n int) {
 // ---------------------------------------------------------------- generator
 
 func genC14(w *bufio.Writer, r *hx.Rng, tier string) {
+	// hx.NewRng(seed) starts splitmix at seed*GOLDEN, so the stream of seed k+1 is the stream of
+	// seed k shifted by one draw; re-seed from a mixed output to get unrelated streams per seed
+	r = hx.NewRng(r.U64() ^ 0xC14C14C14)
 	nDoIf, nMatch := 40000, 15000
 	if tier == "thorough" {
 		nDoIf, nMatch = 450000, 120000
